@@ -216,7 +216,7 @@ struct Dump {
     void line(const std::string& l, bool locatable = false) {
         flushText();
         out += l;
-        if (withLoc && locatable && loc) { char b[64]; snprintf(b, sizeof b, "\t@%llu", (unsigned long long)loc->getLineNumber()); out += b; }
+        if (withLoc && locatable) { char b[64]; snprintf(b, sizeof b, "\t@%llu", (unsigned long long)(loc ? loc->getLineNumber() : 0)); out += b; }
         out += '\n';
     }
     void err(unsigned code, const XMLCh* domain, XMLErrorReporter::ErrTypes t, const XMLCh* sysId, XMLFileLoc l, XMLFileLoc c) {
@@ -491,12 +491,13 @@ struct MemLSResolver : public DOMLSResourceResolver {
 // Chunked input: a BinInputStream that hands out bytes according to a read plan
 // ---------------------------------------------------------------------------------------------
 struct ChunkStream : public BinInputStream {
-    const std::string& data; std::vector<size_t> plan; size_t pos = 0, k = 0; long* reads;
-    ChunkStream(const std::string& d, const std::vector<size_t>& p, long* r) : data(d), plan(p), reads(r) {}
+    const std::string& data; std::vector<size_t> plan; size_t pos = 0, k = 0; long* reads; size_t first;
+    ChunkStream(const std::string& d, const std::vector<size_t>& p, long* r, size_t f = 0) : data(d), plan(p), reads(r), first(f) {}
     XMLFilePos curPos() const { return pos; }
     XMLSize_t readBytes(XMLByte* const toFill, const XMLSize_t maxToRead) {
         size_t want = maxToRead;
-        if (!plan.empty()) { size_t c = plan[k % plan.size()]; k++; if (c && c < want) want = c; }
+        if (first && pos == 0 && !plan.empty()) { if (first < want) want = first; }
+        else if (!plan.empty()) { size_t c = plan[k % plan.size()]; k++; if (c && c < want) want = c; }
         if (want > data.size() - pos) want = data.size() - pos;
         if (want) memcpy(toFill, data.data() + pos, want);
         pos += want; if (reads) (*reads)++;
@@ -505,9 +506,9 @@ struct ChunkStream : public BinInputStream {
     const XMLCh* getContentType() const { return 0; }
 };
 struct ChunkSource : public InputSource {
-    const std::string& data; std::vector<size_t> plan; long reads = 0;
+    const std::string& data; std::vector<size_t> plan; long reads = 0; size_t first = 0;
     ChunkSource(const std::string& d, const std::vector<size_t>& p, const XMLCh* sysId) : InputSource(sysId), data(d), plan(p) {}
-    BinInputStream* makeStream() const { return new ChunkStream(data, plan, const_cast<long*>(&reads)); }
+    BinInputStream* makeStream() const { return new ChunkStream(data, plan, const_cast<long*>(&reads), first); }
 };
 static std::vector<size_t> parsePlan(const std::string& s) {
     std::vector<size_t> p; if (s.empty()) return p;
@@ -680,7 +681,7 @@ static void runParse(const Req& r, ParseOut& po, XMLGrammarPool* pool = 0, Memor
     SecurityManager sm; long lim = f.i("secmgr", -1); if (lim >= 0) sm.setEntityExpansionLimit((XMLSize_t)lim);
     SecurityManager* smp = lim >= 0 ? &sm : 0;
     X sysx(sysid);
-    ChunkSource src(doc, plan, sysx.c());
+    ChunkSource src(doc, plan, sysx.c()); src.first = (size_t)geti(r, "chunk1", 0);
     if (f.has("forceenc")) src.setEncoding(X(f.s("forceenc")).c());
     bool useRes = !st.ents.empty() || f.b("resolver", false);
     long steps = geti(r, "steps", -1);   // progressive: abandon after this many parseNext calls (-1: run to end)
